@@ -53,10 +53,15 @@ Qed.
 Lemma rotate_kinv fee w :
   WInv w -> KInv w -> KInv (fst (run (rotate_keyset (w_mem w) (w_active w) fee) no_fault w)).
 Proof.
-  intros Hi Hk. destruct (d_ks (w_db w)) as [|r0 rs] eqn:Erows.
+  intros Hi Hk. destruct (Z_le_dec two63 fee) as [Hbig|Hsmall].
+  { (* a fee that does not fit is refused: nothing changes *)
+    destruct (rotate_fee_must_fit (w_mem w) (w_active w) fee w Hbig) as [w' [Hrun [Hd [_ [Hm Ha]]]]]. rewrite Hrun. cbn [fst].
+    apply (kinv_same_ks w); [|exact Hk]. unfold same_ks. rewrite Hd, Hm, Ha. repeat split. }
+  assert (Hfee : fee < two63) by lia. assert (Hfb : (two63 <=? fee) = false) by (apply Z.leb_gt; exact Hfee).
+  destruct (d_ks (w_db w)) as [|r0 rs] eqn:Erows.
   - (* nothing stored: the nil active keyset is dereferenced before anything is written *)
     assert (Hsame : d_ks (w_db (fst (run (rotate_keyset (w_mem w) (w_active w) fee) no_fault w))) = []).
-    { unfold rotate_keyset. destruct w as [d l m a n]. cbn [w_db w_mem w_active] in *. sx.
+    { unfold rotate_keyset. destruct w as [d l m a n]. cbn [w_db w_mem w_active] in *. sx. rewrite Hfb.
       destruct (find_ks a m); sx; [|exact Erows]. rewrite Erows. cbn [map mem existsb]. sx. exact Erows. }
     intros Hne. exfalso. apply Hne. exact Hsame.
   - assert (Hne : d_ks (w_db w) <> []) by (rewrite Erows; discriminate).
@@ -66,7 +71,7 @@ Proof.
     assert (Hm1 : mem (w_active w) (map k_id (d_ks (w_db w))) = true) by (apply mem_In; rewrite <- Haid; apply in_map; exact Hain).
     assert (Hm2 : mem (w_active w + 1) (map k_id (d_ks (w_db w))) = false).
     { apply mem_false. intro Hc. apply in_map_iff in Hc as [k [Hkid Hkin]]. specialize (Hle k Hkin). lia. }
-    destruct (rotate_spec (w_mem w) (w_active w) fee w a Hf Haid Hm1 Hm2) as [w' [Hrun [Hact' [Hmem' [Hks' _]]]]].
+    destruct (rotate_spec (w_mem w) (w_active w) fee w a Hfee Hf Haid Hm1 Hm2) as [w' [Hrun [Hact' [Hmem' [Hks' _]]]]].
     rewrite Hrun. cbn [fst]. intros _.
     set (A := w_active w) in *. set (rows := d_ks (w_db w)) in *.
     set (deact := fun k => if k_id k =? A then mkKs (k_id k) (k_fee k) false else k).
